@@ -428,22 +428,29 @@ def _quiet():
 
 
 def develop_history(job):
-    """one edit history on the real DevelopDirOracle; job = (dir, specs)  -> list of records"""
+    """one edit history on the real DevelopDirOracle; job = (dir, specs[, seed])  -> list of records.
+    After every edit the real `collectPaths` is also called on the primed package graph, with a BobState whose
+    directory states are set (matching / stale / absent, seeded) through the public BobState API; states of
+    earlier edits stay, so directories of vanished variants carry naturally stale digests."""
     import gc
-    d, specs = job
+    import random
+    d, specs = job[0], job[1]
+    seed = job[2] if len(job) > 2 else 0
     from gen import c16_projects as G
     os.makedirs(d, exist_ok=True)
     cwd = os.getcwd()
     os.chdir(d)
     recs = []
     try:
-        for spec in specs:
+        for step_no, spec in enumerate(specs):
             _write_project(G.render(spec))
             rec = {}
             try:
                 with _quiet():
                     recipes, packages = load_packages("develop")
                     g = graph_record(packages, "develop")
+                    rec["collects"] = [collect_probe(packages, g, random.Random("%s-%d-%d" % (seed, step_no, k)))
+                                       for k in range(4)]
                 del recipes, packages
             except Exception as e:  # noqa
                 rec["error"] = "%s: %s" % (type(e).__name__, str(e)[:300])
@@ -461,6 +468,68 @@ def develop_history(job):
     finally:
         os.chdir(cwd)
     return recs
+
+
+def collect_probe(packages, g, rr):
+    """prime directory states for the workspaces of the current graph and call the real collectPaths"""
+    import bob.state
+    from bob.state import BobState
+    from bob.cmds.build.clean import collectPaths
+    try:
+        st = BobState()
+        seen = set()
+        for p in g["pkgs"]:
+            for lab in ("build", "dist"):
+                s = p["steps"][lab]
+                if not s["valid"] or not s["path"] or s["path"] in seen:
+                    continue
+                seen.add(s["path"])
+                k = rr.random()
+                if k < 0.55:
+                    vid = bytes.fromhex(s["vid"])
+                elif k < 0.75:
+                    vid = hashlib.sha1(b"stale" + s["path"].encode() + bytes([rr.randrange(256)])).digest()
+                elif k < 0.85:
+                    st.delDirectoryState(s["path"])
+                    continue
+                else:
+                    continue        # whatever an earlier edit left there
+                st.setDirectoryState(s["path"], [vid, s["path"]] if lab == "build" else vid)
+        used = collectPaths(packages.getRootPackage())
+        states = []
+        for d0 in st.getDirectories():
+            v = st.getDirectoryState(d0, False)
+            if isinstance(v, list):
+                states.append([d0, "build", v[0].hex()])
+            elif isinstance(v, bytes):
+                states.append([d0, "pkg", v.hex()])
+            else:
+                states.append([d0, "src", ""])
+    finally:
+        bob.state.finalize()
+    pkgs = [{"id": p["id"], "name": p["name"], "deps": p["deps"],
+             "steps": {lab: {"valid": p["steps"][lab]["valid"], "path": p["steps"][lab]["path"], "vid": p["steps"][lab]["vid"]}
+                       for lab in ("src", "build", "dist")}} for p in g["pkgs"]]
+    return {"used": sorted(x for x in used if x is not None), "states": states, "root": g["root"], "pkgs": pkgs}
+
+
+def check_collect_records(ctx, recs, case):
+    """the property's wording on the real collectPaths: every workspace that belongs to a package of the current
+    graph (stored digest absent or matching) must be reported as used - `bob clean` deletes what is not"""
+    for i, rec, cp in [(i, rec, cp) for i, rec in enumerate(recs) for cp in rec.get("collects", [])]:
+        live = live_paths(cp, cp["states"])
+        used = set(cp["used"])
+        twins = len({p["steps"]["dist"]["vid"] for p in cp["pkgs"]}) < len(cp["pkgs"])
+        ctx.case(("collect", json.dumps(cp, sort_keys=True)), nontrivial=bool(cp["states"]),
+                 sample={"collectPaths": {"packages": len(cp["pkgs"]), "states": len(cp["states"]), "used": len(used)}})
+        ctx.count("collect", "identical-packages" if twins else "all-distinct")
+        for path, kind in sorted(live.items()):
+            if path not in used:
+                owner = [p["name"] for p in cp["pkgs"] if any(p["steps"][l]["path"] == path for l in ("src", "build", "dist"))]
+                ctx.violation("collectPaths does not report %s (%s workspace of %s, stored digest absent or matching) as used: "
+                              "`bob clean` would delete an up-to-date result" % (path, kind, "/".join(owner)),
+                              dict(case, upto=i + 1), "collectPaths-misses-live-workspace")
+                break
 
 
 def release_history(job):
@@ -721,6 +790,31 @@ def gen_real_script(r, mode, git_urls, rounds):
     return script
 
 
+def guaranteed_scripts(r):
+    """short develop/release histories that always run (also on a loaded machine): identical packages from
+    different recipes, multiPackage siblings with identical steps, one recipe under two package names, tools"""
+    from gen import c16_projects as G
+    out = []
+    for extra, mode in ((["twinA", "twinB"], "develop"), (["mp-x", "mp-y", "foo", "foo-bar"], "develop"),
+                        (["twinB", "twinA", "mp-y"], "release")):
+        spec = G.initial(r, None, small=True)
+        spec["root_extra"] = list(extra)
+        spec["mp_same"] = True
+        for a in spec["apps"].values():
+            a["deps"] = [x for x in a["deps"] if x not in extra][:1]
+            a["tool"] = True
+        b = {"op": "dev", "args": ["root"], "mode": mode} if mode == "develop" else \
+            {"op": "build", "args": ["--no-sandbox", "root"], "mode": mode}
+        rel = ["--release"] if mode == "release" else []
+        script = [{"op": "spec", "spec": spec}, b,
+                  {"op": "clean", "args": rel + ["--dry-run", "-v"], "mode": mode, "cmode": mode},
+                  {"op": "clean", "args": rel + ["-v"], "mode": mode, "cmode": mode}]
+        spec2, k = G.edit(r, spec)
+        script += [{"op": "spec", "spec": spec2}, dict(b), {"op": "clean", "args": rel + ["-s", "-v"], "mode": mode, "cmode": mode}]
+        out.append(script)
+    return out
+
+
 def run_real(job):
     """execute one script in a child process; job = (dir, script, repo, time limit) -> results (or error string)"""
     d, script, repo, limit = job
@@ -884,6 +978,10 @@ def check_real(ctx, script, results, case):
             rel = {os.path.join(d0, "workspace") for k, n, d0, issrc in bst["byNameDirs"] if n is None}
             known = {d0[0]: d0[1] for d0 in bst["dirStates"] if d0[0] not in rel}
         live = live_paths(g, bst["dirStates"]) if cmode != "attic" else {}
+        for d0 in [l[3:] for l in res["out"] if l.startswith("rm ")]:
+            if d0 in live and d0 not in roots:
+                ctx.violation("bob clean %s lists %s for removal which belongs to the current package graph (%s, state matches)"
+                              % (args, d0, live[d0]), here, "clean-removed-live")
         for d0 in roots:
             if d0 not in known:
                 ctx.violation("bob clean %s removed %s which is no directory Bob knows in this mode" % (args, d0), here, "clean-removed-unknown")
@@ -953,7 +1051,7 @@ def _jobs(ctx):
     for h in range(n_hist):
         r = ctx.subrng("develop", h)
         specs, kinds = gen_specs(r, n_edit)
-        dev.append((os.path.join(ctx.tmp, "dev%d" % h), specs))
+        dev.append((os.path.join(ctx.tmp, "dev%d" % h), specs, r.randrange(1 << 30)))
     for h in range(ctx.scale(32, 300)):
         r = ctx.subrng("release", h)
         specs, kinds = gen_specs(r, n_edit)
@@ -1001,8 +1099,9 @@ def oracle(ctx):
     c["dev_recs"] = _batched(ctx, develop_history, c["dev"], until=total * 0.78)
     c["dev"] = c["dev"][:len(c["dev_recs"])]
     ctx.count("histories", "develop", len(c["dev_recs"]))
-    for h, ((d, specs), recs) in enumerate(zip(c["dev"], c["dev_recs"])):
-        check_develop_records(ctx, recs, {"kind": "develop", "specs": specs})
+    for h, ((d, specs, sd), recs) in enumerate(zip(c["dev"], c["dev_recs"])):
+        check_develop_records(ctx, recs, {"kind": "develop", "specs": specs, "seed": sd})
+        check_collect_records(ctx, recs, {"kind": "collect", "specs": specs, "seed": sd})
     _phase(ctx, "develop", t0)
     t0 = time.time()
     # (b) release mode, in process
@@ -1025,10 +1124,17 @@ def oracle(ctx):
         jobs.append((os.path.join(ctx.tmp, "real%d" % h), script, ctx.repo, None))
     c["cleans"] = []
     reserve = total * 0.18
-    last, i, batch = 0.0, 0, 16
+    # a guaranteed minimum of real dev/build + clean histories, whatever the load of the machine
+    gs = guaranteed_scripts(ctx.subrng("guaranteed"))
+    gjobs = [(os.path.join(ctx.tmp, "guar%d" % k), sc, ctx.repo, max(420.0, ctx.time_left())) for k, sc in enumerate(gs)]
+    t = time.time()
+    for sc, res in zip(gs, ctx.parallel(run_real, gjobs, workers=len(gjobs))):
+        c["cleans"].extend(check_real(ctx, sc, res, {"kind": "real", "script": sc}))
+        ctx.count("histories", "real-guaranteed")
+    last, i, batch = time.time() - t, 0, 16
     while i < len(jobs):
         left = ctx.time_left() - reserve
-        if i > 0 and left < last * 1.1:
+        if left < max(last * 1.1, 20.0):
             break
         limit = max(45.0, left)
         t = time.time()
@@ -1077,7 +1183,7 @@ def _correspond(ctx):
         outs = ctx.lean(DRIVER, reqs)
         for h, req, m in zip(idxs, reqs, outs):
             rec = c["dev_recs"][h][i]
-            case = {"kind": "develop", "specs": c["dev"][h][1], "upto": i + 1}
+            case = {"kind": "develop", "specs": c["dev"][h][1], "seed": c["dev"][h][2], "upto": i + 1}
             if "table" not in m:
                 ctx.disagree("DevelopDirOracle refresh == Model.refresh", case, rec["table"], m)
                 tables[h] = None
@@ -1110,6 +1216,25 @@ def _correspond(ctx):
                 if want is None or path != want + "/workspace":
                     ctx.disagree("Step.getWorkspacePath == Model.runnable(fmtReady)", dict(case, key=key), path, want)
     ctx.trace_validated(n)
+    # ---- collectPaths on primed directory states (no build needed): real result == Model.collectPaths
+    reqs, metas = [], []
+    for h, recs in enumerate(c["dev_recs"]):
+        for i, rec, cp in [(i, rec, cp) for i, rec in enumerate(recs) for cp in rec.get("collects", [])]:
+            pkgs = [{"id": p["id"], "deps": p["deps"],
+                     "co": [bool(p["steps"]["src"]["valid"]), p["steps"]["src"]["path"], p["steps"]["src"]["vid"]],
+                     "b": [bool(p["steps"]["build"]["valid"]), p["steps"]["build"]["path"], p["steps"]["build"]["vid"]],
+                     "p": [bool(p["steps"]["dist"]["valid"]), p["steps"]["dist"]["path"], p["steps"]["dist"]["vid"]]} for p in cp["pkgs"]]
+            reqs.append({"op": "clean", "mode": "develop", "src": False, "force": False, "dryRun": True, "verbose": False,
+                         "root": cp["root"], "fuel": len(pkgs) + 2, "pkgs": pkgs, "states": cp["states"], "byname": [],
+                         "attic": [], "existing": [], "expendable": [], "atticExpendable": []})
+            metas.append((cp, {"kind": "collect", "specs": c["dev"][h][1], "seed": c["dev"][h][2], "upto": i + 1}))
+    outs = ctx.lean(DRIVER, reqs) if reqs else []
+    for (cp, case), m in zip(metas, outs):
+        mu = sorted(set(m.get("used", []))) if "used" in m else m
+        ctx.case(("collect-model", json.dumps(cp, sort_keys=True)), nontrivial=bool(cp["states"]))
+        if mu != cp["used"]:
+            ctx.disagree("collectPaths == Model.collectPaths", case, cp["used"], mu)
+    ctx.trace_validated(len(reqs))
     # ---- base directory formatters
     base_reqs, base_impl = [], []
     seen = set()
@@ -1278,7 +1403,10 @@ def replay(ctx, case):
     upto = case.get("upto")
     if k == "develop":
         specs = case["specs"][:upto] if upto else case["specs"]
-        check_develop_records(ctx, develop_history((d, specs)), {"kind": "develop", "specs": specs})
+        check_develop_records(ctx, develop_history((d, specs, case.get("seed", 0))), {"kind": "develop", "specs": specs, "seed": case.get("seed", 0)})
+    elif k == "collect":
+        specs = case["specs"][:upto] if upto else case["specs"]
+        check_collect_records(ctx, develop_history((d, specs, case.get("seed", 0))), {"kind": "collect", "specs": specs, "seed": case.get("seed", 0)})
     elif k == "release":
         specs = case["specs"][:upto] if upto else case["specs"]
         check_release_records(ctx, release_history((d, specs, case["seeds"])), {"kind": "release", "specs": specs, "seeds": case["seeds"]})
